@@ -14,6 +14,9 @@ which bucket a key lives in is an arbitrary function `bkt gen k` (any hash, any 
 `doCompute` that depend on the chain layout — "is there a free slot in the chain" and "did the delete leave
 the chain/bucket empty" — are adversarial inputs (`Choice`), so the model over-approximates every layout.
 The commit of a writer (`dcCommit`) is one step: the one micro-store that changes what a scan sees.
+The entry counter is striped as in the code: `addSize` adds to the stripe of the bucket index, `sumSize` reads
+the stripes one atomic load at a time (pcs `szSum`, `dcSum`, `rzFastSum`, `rzDecideSum` loop over them), so a
+sum that overlaps `addSize` calls is not a snapshot — exactly the behaviour of the code.
 
 Ghost state (never read by the protocol): `resizer`, `bcaster`, per-thread `fnCalls`, the linearization log.
 -/
@@ -32,8 +35,8 @@ structure PTbl (K V : Type) where
   data : AMap K V
   /-- owner of the lock of root bucket `i` -/
   lock : Nat → Option Tid
-  /-- sum of the counter stripes -/
-  size : Int
+  /-- the striped entry counter: `ctr i` is stripe `i` (only the first `stripes len` are used) -/
+  ctr : Nat → Int
 
 /-- fixed parameters of one map instance -/
 structure Params (K : Type) where
@@ -43,6 +46,8 @@ structure Params (K : Type) where
   bkt : Nat → K → Nat
   minLen : Nat
   growOnly : Bool
+  /-- number of counter stripes of a table with `len` root buckets (`newMapTable`: `len >> 10` clamped to 8 … 32) -/
+  stripes : Nat → Nat
 
 /-- an interface call.  Every writing call is `doCompute key valueFn loadIfExists computeOnly`
 (`Store`, `LoadOrStore`, `LoadAndStore`, `LoadOrCompute`, `Compute`, `LoadAndDelete`, `Delete` differ only in
@@ -68,10 +73,10 @@ inductive Pc where
   -- Size
   | szTable | szSum
   -- doCompute
-  | dcFast | dcLoadTable | dcLock | dcChkResizing | dcChkTable | dcScan | dcFn | dcCommit
+  | dcFast | dcLoadTable | dcLock | dcChkResizing | dcChkTable | dcScan | dcSum | dcFn | dcCommit
   | dcUnlock | dcAddSize | dcMaybeShrink | dcUnlockWait | dcUnlockRetry | dcUnlockGrow
   -- resize
-  | rzFast | rzCas | rzLoadTable | rzDecide | rzCopyLock | rzCopyDo | rzCopyUnlock | rzPublish
+  | rzFast | rzFastSum | rzCas | rzLoadTable | rzDecide | rzDecideSum | rzCopyLock | rzCopyDo | rzCopyUnlock | rzPublish
   | rzMuLock | rzClearFlag | rzBroadcast | rzMuUnlock
   -- waitForResize
   | wfMuLock | wfChk | wfPark | wfRelock | wfMuUnlock
@@ -135,13 +140,16 @@ structure L (K V : Type) where
   snap : List (K × V)
   visited : List (K × V)
   frames : List (Frame K V)
+  -- `sumSize` locals: next stripe to read, sum so far
+  si : Nat
+  acc : Int
   -- ghost
   fnCalls : Nat
 
 def L.init : L K V :=
   { pc := .idle, op := none, tbl := 0, bi := 0, old := none, fnres := none, delta := 0, leftEmpty := false,
     result := none, hint := .grow, known := 0, rtbl := 0, newT := 0, ci := 0, conts := [], ri := 0, snap := [],
-    visited := [], frames := [], fnCalls := 0 }
+    visited := [], frames := [], si := 0, acc := 0, fnCalls := 0 }
 
 /-- adversarial / environment inputs of one step -/
 structure Choice (K V : Type) where
@@ -164,7 +172,14 @@ def PTbl.setLock (t : PTbl K V) (i : Nat) (o : Option Tid) : PTbl K V :=
 
 def bucketOf (p : Params K) (g : G K V) (gen : Nat) (k : K) : Nat := p.bkt gen k % (g.tables gen).len
 
-def emptyTbl (len : Nat) : PTbl K V := { len := len, data := [], lock := fun _ => none, size := 0 }
+def emptyTbl (len : Nat) : PTbl K V := { len := len, data := [], lock := fun _ => none, ctr := fun _ => 0 }
+
+/-- `addSize(bucketIdx, d)` / `addSizePlain`: the stripe of a bucket index is `bucketIdx & (stripes - 1)` -/
+def PTbl.addCtr (t : PTbl K V) (n bi : Nat) (d : Int) : PTbl K V :=
+  { t with ctr := fun j => if j = bi % n then t.ctr j + d else t.ctr j }
+
+/-- the value an *atomic* sum of the stripes would give (ghost: the code sums stripe by stripe) -/
+def PTbl.total (t : PTbl K V) (n : Nat) : Int := ((List.range n).map t.ctr).sum
 
 /-- entries of table `gen` that live in root bucket `i` -/
 def bucketEntries (p : Params K) (g : G K V) (gen i : Nat) : List (K × V) :=
@@ -239,8 +254,13 @@ def tstep (p : Params K) (t : Tid) (g : G K V) (l : L K V) (c : Choice K V) : Op
       | _ => some (g, { l with pc := .ret, result := some (.val v v.isSome) })
     | none => none
   -- ---------------------------------------------------------------- Size
-  | .szTable => some (g, { l with pc := .szSum, tbl := g.cur })
-  | .szSum => some (g, { l with pc := .ret, result := some (.size (g.tables l.tbl).size) })
+  | .szTable => some (g, { l with pc := .szSum, tbl := g.cur, si := 0, acc := 0 })
+  | .szSum =>
+    -- `sumSize`: one atomic load per stripe; the sum is not an atomic snapshot of the counter
+    let tb := g.tables l.tbl
+    let acc' := l.acc + tb.ctr l.si
+    if l.si + 1 < p.stripes tb.len then some (g, { l with si := l.si + 1, acc := acc' })
+    else some (g, { l with pc := .ret, result := some (.size acc') })
   -- ---------------------------------------------------------------- doCompute
   | .dcFast => some (g, { l with pc := .ldRead, tbl := g.cur })
   | .dcLoadTable =>
@@ -265,9 +285,14 @@ def tstep (p : Params K) (t : Tid) (g : G K V) (l : L K V) (c : Choice K V) : Op
         else some (g, { l with pc := .dcFn, old := some old })
       | none =>
         if c.hasFree then some (g, { l with pc := .dcFn, old := none })
-        else if tb.size > (p.growThr tb.len : Int) then some (g, { l with pc := .dcUnlockGrow })
-        else some (g, { l with pc := .dcFn, old := none })
+        else some (g, { l with pc := .dcSum, old := none, si := 0, acc := 0 })   -- chain full: grow check
     | none => none
+  | .dcSum =>
+    let tb := g.tables l.tbl
+    let acc' := l.acc + tb.ctr l.si
+    if l.si + 1 < p.stripes tb.len then some (g, { l with si := l.si + 1, acc := acc' })
+    else if acc' > (p.growThr tb.len : Int) then some (g, { l with pc := .dcUnlockGrow })
+    else some (g, { l with pc := .dcFn })
   | .dcFn =>
     match l.op with
     | some (.dc _ f _ _) => some (g, { l with pc := .dcCommit, fnres := some (f l.old), fnCalls := l.fnCalls + 1 })
@@ -297,7 +322,7 @@ def tstep (p : Params K) (t : Tid) (g : G K V) (l : L K V) (c : Choice K V) : Op
     some (setTbl g l.tbl ((g.tables l.tbl).setLock l.bi none), { l with pc := .dcAddSize })
   | .dcAddSize =>
     let tb := g.tables l.tbl
-    some (setTbl g l.tbl { tb with size := tb.size + l.delta }, { l with pc := .dcMaybeShrink })
+    some (setTbl g l.tbl (tb.addCtr (p.stripes tb.len) l.bi l.delta), { l with pc := .dcMaybeShrink })
   | .dcMaybeShrink =>
     if l.leftEmpty then some (g, callResize l l.tbl .shrink .dcDone) else some (g, { l with pc := .ret })
   | .dcUnlockWait =>
@@ -309,8 +334,15 @@ def tstep (p : Params K) (t : Tid) (g : G K V) (l : L K V) (c : Choice K V) : Op
   -- ---------------------------------------------------------------- resize
   | .rzFast =>
     let kt := g.tables l.known
-    if l.hint = .shrink ∧ (p.growOnly ∨ p.minLen = kt.len ∨ kt.size > (p.shrinkThr kt.len : Int)) then
-      some (g, popCont l)
+    if l.hint = .shrink then
+      if p.growOnly ∨ p.minLen = kt.len then some (g, popCont l)
+      else some (g, { l with pc := .rzFastSum, si := 0, acc := 0 })
+    else some (g, { l with pc := .rzCas })
+  | .rzFastSum =>
+    let kt := g.tables l.known
+    let acc' := l.acc + kt.ctr l.si
+    if l.si + 1 < p.stripes kt.len then some (g, { l with si := l.si + 1, acc := acc' })
+    else if acc' > (p.shrinkThr kt.len : Int) then some (g, popCont l)
     else some (g, { l with pc := .rzCas })
   | .rzCas =>
     if g.resizing then some (g, callWait l .rzAfterWait)
@@ -323,13 +355,19 @@ def tstep (p : Params K) (t : Tid) (g : G K V) (l : L K V) (c : Choice K V) : Op
       some ({ (setTbl g g.ntables (emptyTbl (tb.len * 2))) with ntables := g.ntables + 1, growths := g.growths + 1 },
             { l with pc := .rzCopyLock, newT := g.ntables, ci := 0 })
     | .shrink =>
-      if tb.len > p.minLen ∧ tb.size ≤ (p.shrinkThr tb.len : Int) then
-        some ({ (setTbl g g.ntables (emptyTbl (tb.len / 2))) with ntables := g.ntables + 1, shrinks := g.shrinks + 1 },
-              { l with pc := .rzCopyLock, newT := g.ntables, ci := 0 })
+      if tb.len > p.minLen then some (g, { l with pc := .rzDecideSum, si := 0, acc := 0 })
       else some (g, { l with pc := .rzMuLock, newT := l.rtbl })   -- abandoned: nothing to publish
     | .clear =>
       some ({ (setTbl g g.ntables (emptyTbl p.minLen)) with ntables := g.ntables + 1 },
             { l with pc := .rzPublish, newT := g.ntables })
+  | .rzDecideSum =>
+    let tb := g.tables l.rtbl
+    let acc' := l.acc + tb.ctr l.si
+    if l.si + 1 < p.stripes tb.len then some (g, { l with si := l.si + 1, acc := acc' })
+    else if acc' ≤ (p.shrinkThr tb.len : Int) then
+      some ({ (setTbl g g.ntables (emptyTbl (tb.len / 2))) with ntables := g.ntables + 1, shrinks := g.shrinks + 1 },
+            { l with pc := .rzCopyLock, newT := g.ntables, ci := 0 })
+    else some (g, { l with pc := .rzMuLock, newT := l.rtbl })   -- abandoned: nothing to publish
   | .rzCopyLock =>
     if l.ci < (g.tables l.rtbl).len then
       match (g.tables l.rtbl).lock l.ci with
@@ -339,7 +377,7 @@ def tstep (p : Params K) (t : Tid) (g : G K V) (l : L K V) (c : Choice K V) : Op
   | .rzCopyDo =>
     let es := bucketEntries p g l.rtbl l.ci
     let nt := g.tables l.newT
-    let nt' := { nt with data := es.foldl (fun d e => d.set e.1 e.2) nt.data, size := nt.size + es.length }
+    let nt' := { (nt.addCtr (p.stripes nt.len) l.ci es.length) with data := es.foldl (fun d e => d.set e.1 e.2) nt.data }
     some (setTbl g l.newT nt', { l with pc := .rzCopyUnlock })
   | .rzCopyUnlock =>
     some (setTbl g l.rtbl ((g.tables l.rtbl).setLock l.ci none), { l with pc := .rzCopyLock, ci := l.ci + 1 })
